@@ -302,6 +302,11 @@ class MinFlowDecompCycles(walkmodel.AbstractWalkModelDiGraph):
         if any(self.flow_attr not in self.G.edges[e] for e in self.G.edges):
             return None
 
+        # The largest flow value is used below as the number of times an element of the generating set can be repeated:
+        # a value below 1 (float flows) is not such a count, and no bound is computed from it
+        if self.w_max < 1:
+            return None
+
         min_gen_set_start_time = time.perf_counter()
         all_weights = list(set({self.G.edges[e][self.flow_attr] for e in self.G.edges() if self.flow_attr in self.G.edges[e]}))
         # Get the source_flow as the sum of the out_flow - in_flow, for all nodes
